@@ -16,7 +16,7 @@ def run(case, kind="fsdp1"):
 
     rnd = rng_for(*case["seed"], "real")
     if kind == "fsdp1":
-        mode, W, R, Sn, Gs = rnd.choice([("fsdp", 2, 1, 2, 1), ("fsdp", 3, 1, 3, 1), ("fsdp", 4, 1, 4, 1), ("hsdp", 4, 2, 2, 2), ("hsdp", 4, 2, 2, 1), ("hsdp", 2, 2, 1, 2)])
+        mode, W, R, Sn, Gs = rnd.choice([("fsdp", 2, 1, 2, 1), ("fsdp", 3, 1, 3, 1), ("fsdp", 4, 1, 4, 1), ("hsdp", 4, 2, 2, 2), ("hsdp", 4, 2, 2, 1)])  # (a shard dimension of 1 leaves the parameters unflattened)
         module = "vf.fsdp_rank"
     else:  # real fully_shard (FSDP2) parameter layout
         mode, W, R, Sn, Gs = rnd.choice([("fully", 2, 1, 2, 1), ("fully", 3, 1, 3, 1), ("fully", 4, 1, 4, 1), ("hybrid", 4, 2, 2, 2), ("hybrid", 4, 2, 2, 1), ("hybrid", 2, 2, 1, 2)])
